@@ -1,12 +1,12 @@
 SPECIFICATION Spec
 CONSTANTS
-  MaxAdds = 2
+  MaxAdds = 1
   MaxFlaps = 2
   MaxShut = 1
   MaxFees = 0
   FeeRates = {6000, 9000, 12000}
   BaseFee = 6000
-  Kinds = {0, 1}
+  Kinds = {1, 2}
   BlockInOnResume = FALSE
 INVARIANTS NoFailure QuiescentSynced ExactlyOnce CovSane
 VIEW View
